@@ -86,12 +86,25 @@ theorem C07_eco_players (i : Info) :
     ∧ (fromRoot i).players.map (·.name) = i.onlinePlayersNames := by
   simp [fromRoot, List.map_map, Function.comp_def]
 
--- non-vacuity: a concrete state in the SPEC's domain; 3.75 is `400E000000000000`
+-- non-vacuity: a concrete state in the SPEC's domain; 3.75 is `400E000000000000`, -0 is `8000000000000000`
 example :
-    let d : Spec.Dyadic := ⟨false, 15, 2⟩
-    let z : Spec.Dyadic := ⟨true, 0, 0⟩
+    let d : Spec.Decimal := ⟨false, 375, -2⟩
+    let z : Spec.Decimal := ⟨true, 0, 0⟩
     let i : Info := ⟨true, 3000, 3001, false, [69], [], [], 5, 100, [[97], [98]], false, d.bits, z.bits, 1, 2, 3, [], [49], [],
       [], [], false, true, [], [], [], false, 0, 0, 4294967295, d.bits, d.bits, false, [([107], [118])], [], [], [117]⟩
-    Spec.wf ⟨i, d, z, d, d⟩ = true ∧ d.bits = 0x400E000000000000 ∧ d.text = [51, 46, 55, 53]
+    Spec.wf ⟨i, d, z, d, d⟩ = true ∧ d.bits = 0x400E000000000000 ∧ z.bits = 0x8000000000000000
+    ∧ d.text = [51, 55, 53, 101, 45, 50]
     ∧ (fromRoot i).port = 3000 ∧ (fromRoot i).players = [⟨[97]⟩, ⟨[98]⟩] ∧ (fromRoot i).connect = [117] := by
   decide
+
+/-- The value of a decimal literal: the nearest double, ties to even — e.g. 2^53 + 1 (a tie) goes to the even
+neighbour 2^53, the largest double is reached, one more unit in its 17th digit overflows, half the smallest
+subnormal goes to zero and anything above it to the smallest subnormal. -/
+theorem C07_eco_nearest_double_examples :
+    Spec.nearestDouble 9007199254740993 1 = some 0x4340000000000000
+    ∧ Spec.nearestDouble (17976931348623157 * 10 ^ 292) 1 = some 0x7FEFFFFFFFFFFFFF
+    ∧ Spec.nearestDouble (18 * 10 ^ 307) 1 = none
+    ∧ Spec.nearestDouble 2 (10 ^ 324) = some 0
+    ∧ Spec.nearestDouble 25 (10 ^ 325) = some 1
+    ∧ Spec.nearestDouble 1 10 = some 0x3FB999999999999A := by
+  decide +kernel
